@@ -115,39 +115,53 @@ Proof. exact crlf_irrelevant. Qed.
 
 (* ---------------------------------------------------------------- (c) batch independence *)
 
-(** what is printed for the inputs of a batch: the reports of compiling each one alone, in order
-    (all of them; or, if one makes the process panic, up to and including that one) *)
+(** what is printed for the inputs of a batch is [expected files [] inputs], a recursion on the inputs
+    that threads nothing but the output paths used so far: an input without a file name is refused;
+    an input whose output path an earlier input already used is refused; any other input gets the
+    report of compiling it ([report_of]: nothing of the batch enters); a panic ends the list *)
 Theorem C13_batch_reports : forall keep files f inputs,
-  b_reports (run_batch keep files f inputs) = map (report_of files) (reached files inputs).
+  b_reports (run_batch keep files f inputs) = expected files [] inputs.
 Proof. exact batch_reports. Qed.
 
 (** in any batch, at any position, after any inputs that do not panic, before anything at all,
-    whatever the output directory holds: the report for an input is the report of compiling it alone *)
+    whatever the output directory holds: the report for an input is the report of compiling it
+    alone -- unless its output path was used by an earlier input, in which case it is the refusal *)
 Theorem C13_batch_report_alone : forall keep files f f' pre x post,
   Forall (fun i => ~ panics files i) pre ->
   nth_error (b_reports (run_batch keep files f (pre ++ x :: post))) (length pre)
-  = nth_error (b_reports (run_batch keep files f' [x])) 0.
+  = Some (match in_out x with
+          | Some o => if used o (outs pre) then refusal x o else alone_report files x
+          | None => alone_report files x
+          end)
+  /\ nth_error (b_reports (run_batch keep files f' [x])) 0 = Some (alone_report files x).
 Proof. exact batch_report_alone. Qed.
 
-(** the exit status is failure iff some input that was reached failed *)
+(** the exit status is failure iff something other than "<in> -> <out> ok" was reported (an error of
+    process_file, or a refusal) *)
 Theorem C13_batch_status : forall keep files f inputs,
   b_status (run_batch keep files f inputs) = ExitFailure <->
-  exists i, In i (reached files inputs) /\ fails files i.
+  exists r, In r (b_reports (run_batch keep files f inputs)) /\ bad_report r.
 Proof. exact batch_status. Qed.
 
-(** permuting the inputs permutes the reports and keeps the exit status *)
+(** inputs with pairwise distinct output paths are all reported as if compiled alone; permuting them
+    permutes the reports and keeps the exit status *)
 Theorem C13_batch_permutation : forall keep files f f' inputs inputs',
-  Forall (fun i => ~ panics files i) inputs -> Permutation inputs inputs' ->
-  Permutation (b_reports (run_batch keep files f inputs)) (b_reports (run_batch keep files f' inputs'))
+  Forall (fun i => ~ panics files i) inputs -> NoDup (outs inputs) -> Permutation inputs inputs' ->
+  b_reports (run_batch keep files f inputs) = map (alone_report files) inputs
+  /\ Permutation (b_reports (run_batch keep files f inputs)) (b_reports (run_batch keep files f' inputs'))
   /\ b_status (run_batch keep files f inputs) = b_status (run_batch keep files f' inputs').
 Proof. exact batch_permutation. Qed.
 
-(** with pairwise distinct output paths, each output path ends up holding what its own input leaves
-    there when compiled alone (the pcap; nothing after an error without --keep) *)
-Theorem C13_batch_outputs : forall keep files f inputs x,
-  NoDup (map in_out inputs) -> Forall (fun i => ~ panics files i) inputs -> In x inputs ->
-  fs_lookup (in_out x) (b_fs (run_batch keep files f inputs)) = leaves keep files x
-  /\ fs_lookup (in_out x) (b_fs (run_batch keep files f [x])) = leaves keep files x.
+(** every output path ends up holding what the FIRST input that asked for it leaves there when that
+    input is compiled alone (the pcap; nothing after an error without --keep): later inputs asking for
+    the same path are refused and neither overwrite nor remove it; a path nobody asked for is untouched *)
+Theorem C13_batch_outputs : forall keep files f f' inputs o,
+  Forall (fun i => ~ panics files i) inputs ->
+  match first_for o inputs with
+  | Some x => fs_lookup o (b_fs (run_batch keep files f inputs)) = leaves keep files x
+              /\ fs_lookup o (b_fs (run_batch keep files f' [x])) = leaves keep files x
+  | None => fs_lookup o (b_fs (run_batch keep files f inputs)) = fs_lookup o f
+  end.
 Proof. exact batch_outputs. Qed.
 
 (* ---------------------------------------------------------------- (d) unused bindings of plain values *)
@@ -189,5 +203,8 @@ Example C13_nonvacuous :
   /\ boundaryb (tx "let f = ipv4:") (tx ":udp::flow(1.2.3.4:1, 5.6.7.8:2);") = false
   /\ (exists l part, run_src [] (join_lf [L1; L2bad; L3]) = RunErr EParse l part)
   /\ boundaryb (tx "f.client_dgram(""a") (tx "b"" ""cd"");") = false
-  /\ ok_with 87 (run_src [] (join_lf [L1; L2; L3bad])).
+  /\ ok_with 87 (run_src [] (join_lf [L1; L2; L3bad]))
+  (* a batch a/x.rsyn b/x.rsyn .. d.rsyn: the second is refused (same output path), the third has no
+     file name, the fourth fails and its stale output is removed; out/x.pcap is the first's capture *)
+  /\ batch_witness.
 Proof. exact witness. Qed.
